@@ -991,7 +991,12 @@ fn decide(
                     10 => quote_size = quote_size.saturating_sub(1),
                     11 => fee = Value::Null,
                     12 => fee = json!({"denom": quote, "amount": (fee_amt + 1).to_string()}),
-                    13 => fee = json!({"denom": base, "amount": fee_amt.max(1).to_string()}),
+                    13 => {
+                        // a fee coin in another denomination: the base, or another traded quote
+                        let other: Vec<&String> = cfg.quotes.iter().filter(|q| **q != quote).collect();
+                        let d = if !other.is_empty() && r.chance(0.7) { (*r.pick(&other)).clone() } else { base.clone() };
+                        fee = json!({"denom": d, "amount": fee_amt.max(1).to_string()});
+                    }
                     14 => fee = json!({"denom": quote, "amount": fee_amt.saturating_sub(1).to_string()}),
                     15 => quote = "nope".into(),
                     16 => base = if cfg.convertibles.is_empty() { "nope".into() } else { cfg.convertibles[0].clone() },
